@@ -569,6 +569,10 @@ impl MempoolInner {
                             .add(promotion_tx, current_nonce, &current_balances)
                     {
                         self.contained_txs.remove(&tx_id);
+                        // report the loss like `insert` does, so that `transaction_status` and
+                        // CometBFT's recheck see a reason instead of the transaction vanishing
+                        self.comet_bft_removal_cache
+                            .add(tx_id, RemovalReason::InternalError);
                         self.metrics.increment_internal_logic_error();
                         error!(
                             address = %telemetry::display::base64(&address_bytes),
@@ -586,6 +590,11 @@ impl MempoolInner {
                             .add(demotion_tx, current_nonce, &current_balances)
                     {
                         self.contained_txs.remove(&tx_id);
+                        // reachable: the parked container (or this account's parked queue) is
+                        // full, or the nonce is already parked. Without this entry the
+                        // transaction is silently lost.
+                        self.comet_bft_removal_cache
+                            .add(tx_id, RemovalReason::InternalError);
                         self.metrics.increment_internal_logic_error();
                         error!(
                             address = %telemetry::display::base64(&address_bytes),
